@@ -147,6 +147,10 @@ def gen_par_one(rng, cid, P):
     tap = rng.choice([0, 0] + ppns[:2] + [rng.choice(ppns)])
     form = rng.choice(["csc", "csr"])
     hi = rng.choice([3, 6, 9])
+    if P in (4, 6, 8) and rng.random() < 0.35:
+        # several nodes of two ranks and larger dense factors: ranks of one node contribute partial rows with common columns to
+        # the same remote row (the node-aware matrix exchange has to merge them)
+        tap = 2; hi = rng.choice([10, 14, 18]); kind = rng.choice(["pmult_T", "pmult_T", "pgalerkin", "pmult"])
     if kind == "pgalerkin":
         nf = rng.randint(1, hi)
         pa = rand_partition(rng, nf, P)
